@@ -351,3 +351,312 @@ Example ex_stream_clause :
   forallb (run_stream cmd_fits row_hit ex_obs true (map (fun pc => expect row_hit ex_obs (fst pc) (snd pc)) ex_paths))
           (o_runs ex_obs) = true.
 Proof. vm_compute. reflexivity. Qed.
+
+(* =======================================================================================
+   Second part: any number of apply logics in one patch, the frame property of the per-command
+   parameters, deploy rules in the extended rule language, dialog questions as predicates. *)
+From Annet Require Import Model.DeployY Model.Dialog Spec.P_C07 Spec.P_C09G
+     Proofs.DeployGroups Proofs.DeployYProofs Proofs.DialogProofs.
+
+(* ---------------------------------------------------------------------------------------
+   itertools.groupby(cmds_with_apply, key = (before texts, after texts)).
+   is_runs l gs: gs written back as a keyed list is l (nothing dropped, added or moved), no
+   group is empty, neighbouring groups have different keys.  The model's groupby is such a
+   decomposition and there is no other one. *)
+Theorem C09_groupby_runs :
+  forall l : list (command * wrapper),
+    is_runs l (groupby l) /\ (forall gs, is_runs l gs -> gs = groupby l).
+Proof.
+  intro l. rewrite groupby_runs_by. split; [apply runs_by_is_runs|apply runs_unique].
+Qed.
+Print Assumptions C09_groupby_runs.
+
+(* apply_deploy_rulebook for ANY number of apply logics.  The command list is a sequence of
+   sessions; a session is (wrapper, before commands, the paths of a run with their commands, after
+   commands) and
+     - the paths of the sessions, concatenated, are the cmd_paths sequence: every command of the
+       patch exactly once, in patch order, nothing moved across a session border;
+     - every path of a session asks for the session's wrapper (the one of its rule's apply logic),
+       and its command is the command of that path (text, level, timeout, dialogs);
+     - the before/after commands are the wrapper's texts, each at level 0 with the parameters of
+       the rule matching it as a one-row path;
+     - no session is empty and neighbouring sessions have different wrappers. *)
+Theorem C09_deploy_sessions :
+  forall hit wrappers rules paths cmds,
+    deploy hit wrappers rules paths = Some cmds ->
+    exists segs : list seg,
+      cmds = flat_map seg_cmds segs /\
+      flat_map (fun s => map fst (sg_m s)) segs = paths /\
+      Forall (seg_ok hit wrappers rules) segs /\
+      adj_differ (map (fun s => (sg_w s, sg_m s)) segs).
+Proof. exact deploy_general. Qed.
+Print Assumptions C09_deploy_sessions.
+
+(* the stream with every wrapper command removed is one command per path, in order, at level
+   |path| - 1 *)
+Theorem C09_deploy_body_general :
+  forall hit wrappers rules paths cmds,
+    deploy hit wrappers rules paths = Some cmds ->
+    exists segs : list seg,
+      cmds = flat_map seg_cmds segs /\ Forall (seg_ok hit wrappers rules) segs /\
+      adj_differ (map (fun s => (sg_w s, sg_m s)) segs) /\
+      Forall2 (fun pc c => body_only hit wrappers rules pc = Some c) paths (strip_wrappers segs) /\
+      map (fun c => (c_level c, c_cmd c)) (strip_wrappers segs) = map (fun pc => lv (fst pc)) paths.
+Proof. exact deploy_body_general. Qed.
+Print Assumptions C09_deploy_body_general.
+
+(* what seg_ok says about the wrapper commands, spelled out *)
+Theorem C09_session_wrapper :
+  forall hit wrappers rules (s : seg),
+    seg_ok hit wrappers rules s ->
+    map c_cmd (sg_b s) = fst (sg_w s) /\ Forall (fun c => c_level c = 0) (sg_b s) /\
+    map c_cmd (sg_a s) = snd (sg_w s) /\ Forall (fun c => c_level c = 0) (sg_a s) /\
+    Forall (fun x => wrappers (d_apply (rule_for hit rules (fst (fst x)) (snd (fst x)))) = sg_w s) (sg_m s).
+Proof.
+  intros hit wrappers rules s [_ [Hm [Hb Ha]]].
+  assert (forall l cs, wraps hit rules l cs -> map c_cmd cs = l /\ Forall (fun c => c_level c = 0) cs) as Hw.
+  { intros l cs H. induction H as [|t c l cs Hc _ [I1 I2]]; [split; [reflexivity|constructor]|].
+    apply wrap_cmd_shape in Hc as [H1 H2]. cbn. split; [congruence|constructor; assumption]. }
+  destruct (Hw _ _ Hb) as [B1 B2]. destruct (Hw _ _ Ha) as [A1 A2].
+  repeat (split; [assumption|]).
+  rewrite Forall_forall in *. intros x Hx. apply (Hm x Hx).
+Qed.
+Print Assumptions C09_session_wrapper.
+
+(* ---------------------------------------------------------------------------------------
+   Frame property of the per-command parameters: position i of the stream without wrapper commands
+   is the command of path i — text, level and, where the rule chain is unique, timeout and dialogs
+   of the rule chain of THAT path (match_deploy_rule walks the whole path) ... *)
+Theorem C09_own_chain :
+  forall hit wrappers rules paths cmds,
+    deploy hit wrappers rules paths = Some cmds ->
+    exists segs : list seg,
+      cmds = flat_map seg_cmds segs /\ Forall (seg_ok hit wrappers rules) segs /\
+      forall i p c, nth_error paths i = Some (p, c) ->
+        exists k, nth_error (strip_wrappers segs) i = Some k /\
+                  c_cmd k = path_cmd p /\ c_level k = path_level p /\
+                  (chain_det hit rules p c = true ->
+                   (c_timeout k, c_questions k) = spec_params (spec_rule hit rules p c)).
+Proof. exact deploy_own_chain. Qed.
+Print Assumptions C09_own_chain.
+
+(* ... and nothing is carried over from the commands seen before: the same path with the same
+   context gets the same command in any two patches, at any two positions *)
+Theorem C09_frame :
+  forall hit wrappers rules paths1 cmds1 paths2 cmds2,
+    deploy hit wrappers rules paths1 = Some cmds1 ->
+    deploy hit wrappers rules paths2 = Some cmds2 ->
+    exists segs1 segs2 : list seg,
+      cmds1 = flat_map seg_cmds segs1 /\ Forall (seg_ok hit wrappers rules) segs1 /\
+      cmds2 = flat_map seg_cmds segs2 /\ Forall (seg_ok hit wrappers rules) segs2 /\
+      forall i j pc, nth_error paths1 i = Some pc -> nth_error paths2 j = Some pc ->
+                     nth_error (strip_wrappers segs1) i = nth_error (strip_wrappers segs2) j /\
+                     nth_error (strip_wrappers segs1) i <> None.
+Proof. exact deploy_frame. Qed.
+Print Assumptions C09_frame.
+
+(* the last element of a path does not determine the parameters: the same command text under two
+   blocks, two different rule chains (a rule memoised by command text is wrong) *)
+Definition twin_rules : list drule :=
+  [DRule "bgp *" 30000 [] [] 0
+         [DRule "shutdown" 120000 [Dlg "Warning: All BGP sessions will be closed. Continue? [Y/N]:" "Y" true] [] 0 []];
+   DRule "interface *" 30000 [] [] 0 [DRule "undo portswitch" 90000 [] [] 0 []]].
+
+Theorem C09_last_element_insufficient :
+  exists rules p1 p2,
+    last p1 "" = last p2 "" /\
+    chain_det row_hit rules p1 [] = true /\ chain_det row_hit rules p2 [] = true /\
+    spec_params (spec_rule row_hit rules p1 []) <> spec_params (spec_rule row_hit rules p2 []).
+Proof.
+  exists twin_rules, ["interface 100GE1/0/1"; "shutdown"], ["bgp 65000"; "shutdown"].
+  vm_compute. repeat split; discriminate.
+Qed.
+Print Assumptions C09_last_element_insufficient.
+
+(* ---------------------------------------------------------------------------------------
+   The clause c9_groups of the predicate (Spec/P_C09G.v: the expected stream for any number of
+   apply logics, computed from the declarative rule chain and the observed wrappers) holds for the
+   model's own output whenever every path has a unique rule chain. *)
+Theorem C09_model_groups :
+  forall (h : hitfn) (o : obs09) (wrappers : nat -> wrapper) (r : run09),
+    (forall id, wrappers id = obs_wrapper r id) ->
+    all_det h o = true ->
+    forall w cmds,
+      r_common r = Some w -> r_cmds r = Some cmds ->
+      deploy h wrappers (o_rules o) (o_paths0 o) = Some cmds ->
+      run_groups cmd_fits h o r = true.
+Proof. exact model_groups_fit. Qed.
+Print Assumptions C09_model_groups.
+
+(* with one apply logic the expected stream of c9_groups is wrapper-before ++ body ++ wrapper-after,
+   the stream P_C09's single-wrapper clause compares with: c9_groups extends that clause *)
+Theorem C09_groups_single :
+  forall (h : hitfn) (o : obs09) (r : run09) (w : wrapper),
+    single_wrapper h o = true -> r_common r = Some w -> o_paths0 o <> [] ->
+    all_det h o = true /\
+    exp_stream h o r =
+    exp_wrap h o (fst w) ++ map (fun pc => expect h o (fst pc) (snd pc)) (o_paths0 o) ++ exp_wrap h o (snd w).
+Proof. exact exp_stream_single. Qed.
+Print Assumptions C09_groups_single.
+
+(* ---------------------------------------------------------------------------------------
+   Deploy rules in the extended rule language (Model/PatternY.v): a conservative extension. *)
+Theorem C09_hit_y_conservative :
+  forall r row c, row_plain (d_pat r) = true -> row_hit_y r row c = row_hit r row c.
+Proof. exact row_hit_y_conservative. Qed.
+Print Assumptions C09_hit_y_conservative.
+
+Theorem C09_deploy_y_conservative :
+  forall wrappers rules,
+    book_plain rules = true ->
+    (forall path c, match_rule row_hit_y rules path c = match_rule row_hit rules path c) /\
+    (forall paths, deploy row_hit_y wrappers rules paths = deploy row_hit wrappers rules paths).
+Proof.
+  intros wrappers rules H. split.
+  - intros path c. apply match_rule_y_conservative. exact H.
+  - intro paths. apply deploy_y_conservative. exact H.
+Qed.
+Print Assumptions C09_deploy_y_conservative.
+
+Theorem C09_fast_hit_y :
+  forall rs r row c, fast_hit_y rs r row c = row_hit_y r row c.
+Proof. exact fast_hit_y_eq. Qed.
+Print Assumptions C09_fast_hit_y.
+
+(* ---------------------------------------------------------------------------------------
+   Dialog questions / ignore texts as predicates on what the device printed
+   (MakeMessageMatcher, RulebookQuestionHandler). *)
+
+(* a text not written as /re/ accepts exactly the contents holding it once whitespace and letter
+   case are ignored *)
+Theorem C09_dialog_plain :
+  forall text content,
+    plain_msg text = true ->
+    (msg_matches text content = Some true <->
+     exists u v, simplify_l (l_of content) = u ++ simplify_l (l_of text) ++ v).
+Proof. exact plain_msg_spec. Qed.
+Print Assumptions C09_dialog_plain.
+
+Theorem C09_dialog_plain_self :
+  forall text pre post content,
+    plain_msg text = true ->
+    simplify_l (l_of content) = simplify_l (pre ++ l_of text ++ post) ->
+    msg_matches text content = Some true.
+Proof. exact plain_msg_self. Qed.
+Print Assumptions C09_dialog_plain_self.
+
+(* a text written as /re/ (modelled language): some prefix of the content is in the language of
+   the expression, letter case ignored *)
+Theorem C09_dialog_regex :
+  forall text src r content,
+    mk_matcher text = MRe src (Some r) ->
+    (msg_matches text content = Some true <->
+     exists u v, l_of content = u ++ v /\ sre_lang true r u).
+Proof. exact re_msg_spec. Qed.
+Print Assumptions C09_dialog_regex.
+
+(* a /re/ source inside the modelled language: every word between single blanks is a one-word regexp,
+   and the expression accepts exactly the words' languages joined by single blanks *)
+Theorem C09_dialog_regex_words :
+  forall src r,
+    parse_dre src = Some r ->
+    exists rs, Forall2 (fun w a => parse_sre_l w = Some a) (split_sp src []) rs /\
+               forall ic w, sre_lang ic r w <-> exists us, Forall2 (sre_lang ic) rs us /\ w = ljoin_sp us.
+Proof. exact parse_dre_words. Qed.
+Print Assumptions C09_dialog_regex_words.
+
+(* the answer sent is that of the first dialog whose question accepts the content *)
+Theorem C09_dialog_first :
+  forall ds content,
+    dialogs_modelled ds = true ->
+    answer_for ds content = Some (option_map dg_answer (find (q_hits content) ds)).
+Proof. exact answer_for_first. Qed.
+Print Assumptions C09_dialog_first.
+
+(* the Question handed to the deploy driver is marked as a regular expression exactly when the
+   question text is written between slashes, and then carries the text between them; for the
+   (stripped) texts of a compiled rule that is exactly when annet's own matcher reads it as /re/ *)
+Theorem C09_question_kind :
+  forall d q,
+    to_question d = Some q ->
+    q_regexp q = is_slashed (l_of (dg_question d)) /\
+    q_answer q = dg_answer d /\
+    (q_regexp q = true -> l_of (q_text q) = inner (l_of (dg_question d))) /\
+    (q_regexp q = false -> q_text q = dg_question d).
+Proof. exact question_kind. Qed.
+Print Assumptions C09_question_kind.
+
+Theorem C09_question_kind_matcher :
+  forall d q,
+    to_question d = Some q -> strip_l (l_of (dg_question d)) = l_of (dg_question d) ->
+    (q_regexp q = true <-> exists src r, mk_matcher (dg_question d) = MRe src r).
+Proof. exact question_kind_matcher. Qed.
+Print Assumptions C09_question_kind_matcher.
+
+(* the clause holds_dlg evaluated on the real question handler holds for the model's own outputs *)
+Theorem C09_model_dialogs :
+  forall ds igs contents,
+    dialogs_modelled ds = true ->
+    holds_dlg (ObsDlg ds igs (map (model_rundlg ds igs) contents)) = true.
+Proof. exact model_dialogs_hold. Qed.
+Print Assumptions C09_model_dialogs.
+
+(* ---------------------------------------------------------------------------------------
+   Non-vacuity of the second part *)
+
+(* two apply logics interleaved: three sessions, the patch commands in patch order *)
+Definition ex2_rules : list drule :=
+  [DRule "~" 30000 [] [("block", "ap-env")] 1 []; DRule "write memory" 45000 [] [] 0 []].
+Definition ex2_paths : list (list string * ctx) :=
+  [(["name:a"], [("block", "ap-env")]); (["usb-port-disable"], []); (["iap-master"], [("block", "ap-env")])].
+Definition ex2_env : env := Env true true (fun s => String.eqb s "Aruba") (fun _ => false).
+
+Example ex2_deploy :
+  deploy row_hit (std_wrappers ex2_env) ex2_rules ex2_paths =
+  Some [Cmd "name:a" 0 30000 []; Cmd "write memory" 0 45000 [];
+        Cmd "conf t" 0 30000 []; Cmd "usb-port-disable" 0 30000 []; Cmd "end" 0 30000 []; Cmd "commit apply" 0 30000 [];
+        Cmd "write memory" 0 45000 [];
+        Cmd "iap-master" 0 30000 []; Cmd "write memory" 0 45000 []].
+Proof. vm_compute. reflexivity. Qed.
+
+Definition ex2_obs : obs09 :=
+  Obs09 (FBlockExit "exit") (CT []) [] ex2_paths ex2_paths ex2_rules ["Aruba"] []
+        [Run09 true true (common_apply ex2_env) (ap_env_apply ex2_env)
+               (deploy row_hit (std_wrappers ex2_env) ex2_rules ex2_paths)].
+
+Example ex2_guards :
+  all_det row_hit ex2_obs = true /\ single_wrapper row_hit ex2_obs = false /\
+  forallb (fun r => run_groups cmd_fits row_hit ex2_obs r) (o_runs ex2_obs) = true.
+Proof. vm_compute. repeat split. Qed.
+
+(* a rulebook of the plain language, and rule rows only the extended language reads *)
+Example ex_book_plain : book_plain ex_rules = true /\ book_plain twin_rules = true.
+Proof. vm_compute. split; reflexivity. Qed.
+
+Example ex_row_y :
+  map row_modelled ["(ftp|FTP) *"; "undo (ftp|FTP) server enable"; "undo (ftp|FTP) (server source|server-source)"]
+  = [true; true; false] /\
+  map row_plain ["(ftp|FTP) *"; "undo (ftp|FTP) server enable"] = [false; false] /\
+  row_hit_y (DRule "undo (ftp|FTP) ipv6 server enable" 30000 [] [] 0 []) "undo FTP ipv6 server enable" [] = true /\
+  row_hit_y (DRule "(ftp|FTP) *" 30000 [] [] 0 []) "ftpd server" [] = false.
+Proof. vm_compute. repeat split. Qed.
+
+(* the six forms of /re/ questions in the shipped deploy rulebooks are inside the modelled language *)
+Example ex_shipped_regex_dialogs :
+  forallb msg_modelled
+    ["/Warning: The current configuration will be written to the device. Continue\? \[Y/N\]:?/";
+     "/Do you want to remove the public key named .*\? \[Y/N\]:/"; "/.*Continue\?/"; "/.*continue\?/";
+     "/Warning: This operation will delete current ports.*/";
+     "/Warning: The interfaces.* will be converted to .* mode/"] = true.
+Proof. vm_compute. reflexivity. Qed.
+
+Example ex_dialogs :
+  plain_msg "Are you sure to continue?[Y/N]" = true /\
+  msg_matches "Are you sure to continue?[Y/N]" "Warning: are you sure to  continue? [y/n]:" = Some true /\
+  msg_matches "/Do you want to remove the public key named .*\? \[Y/N\]:/"
+              "do you want to remove the public key named k1? [Y/N]:" = Some true /\
+  msg_matches "/.*Continue\?/" "Warning: proceed? [Y/N]" = Some false /\
+  msg_matches "/a b|c d/" "a b" = None /\
+  dialogs_modelled [Dlg "/.*continue\?/" "Y" true; Dlg "sure" "N" true] = true /\
+  answer_for [Dlg "/.*continue\?/" "Y" true; Dlg "sure" "N" true] "  Are you SURE? " = Some (Some "N").
+Proof. vm_compute. repeat split. Qed.
